@@ -66,6 +66,9 @@ void
 evwatch_free(struct evwatch *watcher)
 {
 	EVBASE_ACQUIRE_LOCK(watcher->base, th_base_lock);
+	/* The loop may be about to run this watcher next: step over it. */
+	if (watcher->base->watcher_next == watcher)
+		watcher->base->watcher_next = TAILQ_NEXT(watcher, next);
 	TAILQ_REMOVE(&watcher->base->watchers[watcher->type], watcher, next);
 	EVBASE_RELEASE_LOCK(watcher->base, th_base_lock);
 	mm_free(watcher);
